@@ -125,8 +125,8 @@ Print Assumptions C16_simple_frame_meets_spec.
    (integer accumulator, double-precision remainder), EVERY resolution: every code lies in
    0 .. 2^bits - 1 for ALL voltages (NaN and infinities included) and ALL reference voltages, the
    unsigned accumulator never wraps and the result is defined whenever the type is wide enough (it is:
-   C16_dtype_wide_enough), and the code is non-decreasing in the voltage (finite voltages, finite
-   vmax >= 0). *)
+   C16_dtype_wide_enough), and the code is non-decreasing in the voltage (all non-NaN voltages,
+   infinities included; finite vmax >= 0). *)
 Theorem C16_sar_range :
   forall (w bits : Z) (vmax x : b64) (c : Z),
   1 <= bits -> sar_code w bits vmax x = Some c -> 0 <= c <= 2 ^ bits - 1.
@@ -144,15 +144,33 @@ Theorem C16_sar_monotone :
   forall (bits : Z), 1 <= bits ->
   forall (w : Z) (vmax x y : b64) (cx cy : Z),
   is_finite vmax = true -> (0 <= B2R vmax)%R ->
-  is_finite x = true -> is_finite y = true -> ble x y = true ->
+  bis_nan x = false -> bis_nan y = false -> ble x y = true ->
   sar_code w bits vmax x = Some cx -> sar_code w bits vmax y = Some cy -> cx <= cy.
-Proof. exact sar_monotone. Qed.
+Proof.
+  intros bits Hb w vmax x y cx cy Fv Pv Nx Ny Hxy Hx Hy.
+  destruct (Z_lt_le_dec w bits) as [L|L].
+  - (* a type narrower than the resolution: only the defined casts are compared *)
+    pose proof (sar_acc_monotone_ext bits Hb vmax x y Fv Pv Nx Ny Hxy) as H.
+    unfold sar_code, cast_unsigned in Hx, Hy.
+    destruct ((0 <=? sar_acc bits vmax x) && (sar_acc bits vmax x <? 2 ^ w)); [|discriminate].
+    destruct ((0 <=? sar_acc bits vmax y) && (sar_acc bits vmax y <? 2 ^ w)); [|discriminate].
+    inversion Hx; inversion Hy; subst; exact H.
+  - rewrite (sar_defined w bits vmax x Hb L) in Hx. rewrite (sar_defined w bits vmax y Hb L) in Hy.
+    inversion Hx; inversion Hy; subst. apply sar_acc_monotone_ext; assumption.
+Qed.
 Print Assumptions C16_sar_monotone.
+
+(* the SAR converter saturates at the infinities: -inf gives 0, +inf gives full scale *)
+Theorem C16_sar_infinities :
+  forall (bits : Z) (vmax : b64), 1 <= bits -> is_finite vmax = true -> (0 <= B2R vmax)%R ->
+  sar_acc bits vmax ninf = 0 /\ sar_acc bits vmax pinf = 2 ^ bits - 1.
+Proof. intros bits vmax Hb Fv Pv. split; [apply sar_acc_ninf|apply sar_acc_pinf]; assumption. Qed.
+Print Assumptions C16_sar_infinities.
 
 Theorem C16_sar_frame_meets_spec :
   forall (bits : Z) (vmax : b64), 1 <= bits <= 64 ->
   is_finite vmax = true -> (0 <= B2R vmax)%R ->
-  forall xs, all_finite xs = true -> sortedB xs = true ->
+  forall xs, no_nan xs = true -> sortedB xs = true ->
   exists w cs, sar_frame src_dtype_chain bits vmax xs = Some (w, map Some cs) /\ sar_spec bits xs w cs = true.
 Proof. apply sar_frame_meets_spec. vm_compute. reflexivity. Qed.
 Print Assumptions C16_sar_frame_meets_spec.
